@@ -831,6 +831,15 @@ def _exc_matrix(ctx, rng, tag, nconf):
             check(ctx, dict(sc, faults=[list(p)], exc=k), tag)
             ctx.count(f"exc-matrix:{p[0]}")
             ctx.count(f"exc-kind:{k}")
+        if not ctx.thorough and sc["analyzer"] == "max":
+            # the quick tier has one configuration (score maps): the phases that run inside the analyzer once more with a
+            # peak caller (its fault is raised from inside call_peaks), every usual kind of exception
+            sc2 = dict(sc, analyzer="peak")
+            for p in [q for q in _points(ctx, sc2) if q[0] in ("callback", "postprocess", "merge") and q[1] == 0][:3]:
+                for k in main:
+                    check(ctx, dict(sc2, faults=[list(p)], exc=k), tag)
+                    ctx.count(f"exc-matrix:peak-caller:{p[0]}")
+                    ctx.count(f"exc-kind:{k}")
 
 
 def _inputs(ctx, rng, tag, reps):
